@@ -621,6 +621,41 @@ def run(pm, ctx):
             ctx.undecided_site("C03-c", site, "update_params not reached / not typed")
 
     # ---- Douglas: the cut gradient computed in sorted order is mapped back to the cuts' own order
+    # ---- o: every entry of a parameter receives its own partial derivative (no "active set" shortcut)
+    ctx.rule("C03-o", "the direction of a parameter has the partial derivative of the objective in EVERY entry: a gradient array that is allocated as zeros and filled "
+             "only at a data-dependent subset of rows or columns (the currently selected features, the non-zero weights) hands the optimiser a zero direction where the "
+             "true gradient is not zero", floor=6)
+    for ci_, f_ in grads_defs(pm):
+        site_o = f"{ci_.name}._compute_grads: gradients defined on every entry"
+        subset_names = {}
+        for st_ in ast.walk(f_):
+            if isinstance(st_, ast.Assign) and len(st_.targets) == 1 and isinstance(st_.targets[0], (ast.Name, ast.Tuple)):
+                v_ = st_.value
+                core = v_.value if isinstance(v_, ast.Subscript) else v_
+                cn_ = call_name(core) if isinstance(core, ast.Call) else None
+                if cn_ and (cn_.split(".")[-1] in ("get_selection", "nonzero", "flatnonzero", "argwhere") or (cn_.split(".")[-1] == "where" and len(core.args) == 1)):
+                    for t_ in ast.walk(st_.targets[0]):
+                        if isinstance(t_, ast.Name):
+                            subset_names[t_.id] = st_
+        zeros = {st_.targets[0].id: st_ for st_ in ast.walk(f_) if isinstance(st_, ast.Assign) and len(st_.targets) == 1 and isinstance(st_.targets[0], ast.Name)
+                 and isinstance(st_.value, ast.Call) and (call_name(st_.value) or "").split(".")[-1] in ("zeros", "zeros_like")}
+        bad_o = None
+        for st_ in ast.walk(f_):
+            tg_ = st_.targets[0] if isinstance(st_, ast.Assign) and len(st_.targets) == 1 else (st_.target if isinstance(st_, ast.AugAssign) else None)
+            if isinstance(tg_, ast.Subscript) and isinstance(tg_.value, ast.Name) and tg_.value.id in zeros:
+                idx_names = {n_.id for n_ in ast.walk(tg_.slice) if isinstance(n_, ast.Name)}
+                hit = idx_names & set(subset_names)
+                if hit:
+                    bad_o = (st_, tg_.value.id, sorted(hit)[0])
+                    break
+        if bad_o is not None:
+            st_, g_, sel_ = bad_o
+            ctx.violation("C03-o", ci_.unit.relpath, f"{ci_.name}._compute_grads", norm_src(st_)[:160], f"`{g_}` is allocated as zeros and only filled at `{sel_}` = "
+                          f"{norm_src(subset_names[sel_].value)[:60]}: the entries outside that data-dependent subset receive a zero direction although their partial "
+                          "derivative is not zero", line=st_.lineno, site=site_o)
+        else:
+            ctx.ok("C03-o", site_o, "no gradient restricted to a data-dependent subset of entries")
+
     ctx.rule("C03-i", "each Douglas cut point must receive its own gradient, not the one of the cut at its sorted position", floor=1)
     dg = pm.classes["Douglas"].methods["_compute_grads"]
     cfgd = CFG(dg)
@@ -847,6 +882,15 @@ def controls(pm, tier):
                 return {ci.unit.relpath: replace_node(ci.unit, n, "W2_grad.T")}
         return None
     out.append({"name": "MLP hidden gradient built from W2_grad", "rule": "C03-a", "also": ("C03-b",), "apply": mlp_cross})
+
+    def active_set(pm_):
+        u_ = pm_.unit("gemclus.sparse._mlp_sparse")
+        a_ = "        W_skip_grad = X.T @ tau_hat_grad"
+        if a_ not in u_.src:
+            return None
+        b_ = "        sel = self.get_selection()\n        W_skip_grad = np.zeros_like(self.W_skip_)\n        W_skip_grad[sel] = X[:, sel].T @ tau_hat_grad"
+        return {u_.relpath: u_.src.replace(a_, b_, 1)}
+    out.append({"name": "skip-weight gradient computed on the selected features only", "rule": "C03-o", "apply": active_set})
 
     def drop_relu(pm_):
         ci = pm_.classes["SparseMLPModel"]
